@@ -18,19 +18,21 @@ def _init_worker():
 
 
 def _run_one(args):
-    idx, case, wd = args
+    idx, case, wd, modname = args
     try:
-        obs = srvcase.run_case(case, wd)
-        g = srvcase.case_to_gallina(case, obs)
+        import importlib
+        mod = importlib.import_module(modname)
+        obs = mod.run_case(case, wd)
+        g = mod.case_to_gallina(case, obs)
         return idx, obs, g, None
     except Exception:
         return idx, None, None, traceback.format_exc()
 
 
-def run_cases(ctx, cases, jobs=14):
+def run_cases(ctx, cases, jobs=14, modname="srvcase"):
     """Returns list of (obs, gallina, err) aligned with cases."""
     out = [None] * len(cases)
-    args = [(i, c, os.path.join(ctx.work, f"run{i}")) for i, c in enumerate(cases)]
+    args = [(i, c, os.path.join(ctx.work, f"run{i}"), modname) for i, c in enumerate(cases)]
     with ProcessPoolExecutor(max_workers=jobs, initializer=_init_worker) as ex:
         for idx, obs, g, err in ex.map(_run_one, args, chunksize=4):
             out[idx] = (obs, g, err)
